@@ -198,7 +198,9 @@ def gen_case(rng, tier):
     elif f == 'min-version':
         isa['general']['min_version'] = rng.choice([run, mn, '0.4.10', '0.10.0', '0.4.3', '0.4.3b1', '0.4.3rc1', '0.4.3a9', '0.4.3b2',
                                                     '0.3.0', '0.2.9', '0.3', '0.4', '0.5.0', '1.0.0', '0.4.2', '0.3.10', '0.04.3b1',
-                                                    '0.4.4', '0.3.0b1'])
+                                                    '0.4.4', '0.3.0b1',
+                                                    # written as bare numbers in the definition file (0 and 0.0 are falsy values)
+                                                    0, 0.0, 0, 0.2, 0.3, 0.4, 1, '0', '0.0'])
     elif f == 'require':
         name = rng.choice(['tisa', 'tisa', 'tisa', 'other', 'Tisa'])
         r = rng.random()
